@@ -136,6 +136,7 @@ def run_case(case, ses):
                         continue
                 ses.stats.undecided += 1
                 ses.stats.notes.append('abstract counterexample without a real witness (undecided): %s' % label)
+                ses.dismiss_last('model of an abstraction (uninterpreted exp) without a real witness')
                 continue
             if not good:
                 raise HarnessError('C06 counterexample does not reproduce: %s (%s)' % (label, info))
